@@ -38,6 +38,9 @@ def gen(ctx, i):
         gen_ = G(r, 0.0, pskip=0.4, pws=0.25, pcomment=0.3)
     else:
         gen_ = RP_G(r)
+    if i % 5 == 1:
+        # keyword texts recur in several roles of the grammar
+        gen_.preuse = 0.2
     g = gen_.grammar()
     return r, gen_, g
 
